@@ -212,9 +212,19 @@ func verifParse(filename string, input []byte, o *parsersim.Opts, ctx *kernel.Ct
 	if o.Shuffle != 0 {
 		parsersim.ShuffleOpts(len(opts), o.Shuffle, func(i, j int) { opts[i], opts[j] = opts[j], opts[i] })
 	}
+	if o.SpareCap {
+		// the caller keeps its option lists in one array: this call's list is
+		// followed by room (nil here) that belongs to the caller, not to Parse
+		opts = append(make([]Option, 0, len(opts)+3), opts...)
+	}
 	defer func() {
 		if e := recover(); e != nil {
 			esc, val, err = e, nil, nil
+		}
+		for _, x := range opts[len(opts):cap(opts)] {
+			if x != nil {
+				ctx.OptsModified = true
+			}
 		}
 %[7]s
 	}()
